@@ -26,6 +26,7 @@ func main() {
 	known := flag.String("known", "", "known_findings.jsonl")
 	replay := flag.String("replay", "", "replay this file")
 	hang := flag.String("hangfile", "", "side file naming the current case")
+	cold := flag.Bool("cold", false, "cold-start shard: no control run, the shard's first run is the first execution in the process")
 	list := flag.Bool("list", false, "list scenarios")
 	describe := flag.Bool("describe", false, "print scenario metadata as JSON")
 	hashes := flag.Int("hashes", 0, "print event-log hashes of the first N runs and exit (determinism proof)")
@@ -126,7 +127,7 @@ func main() {
 		n = s.Runs[*tier]
 	}
 	b := engine.RunBatch(s, engine.BatchOpts{Tier: *tier, VerifSeed: *seed, Worker: *worker, Workers: *workers, Runs: n,
-		MaxSec: *maxsec, ReplayDir: *replayDir, Known: kf, HangFile: *hang})
+		MaxSec: *maxsec, ReplayDir: *replayDir, Known: kf, HangFile: *hang, Cold: *cold})
 	js, _ := json.Marshal(b)
 	if *out != "" {
 		if err := os.WriteFile(*out, js, 0o644); err != nil {
